@@ -369,11 +369,12 @@ func registerCryptoModels(e *Engine) {
 			if s.kind != "redirect" {
 				continue
 			}
-			hname, hid := "sha256", int64(5)
-			if s.alg.IsConst() && s.alg.S == "http://www.w3.org/2000/09/xmldsig#rsa-sha1" {
-				hname, hid = "sha1", 3
-			}
-			valid = Or(valid, And(Eq(ci.keyID, s.keyID), Eq(hashID, IntC(hid)), Eq(hashed, UF(hname, s.octets)), Eq(sig, s.sig)))
+			// the signer used the digest its algorithm URI names (the URI may be a symbolic choice)
+			sha1 := Eq(s.alg, StrC("http://www.w3.org/2000/09/xmldsig#rsa-sha1"))
+			sha256 := Eq(s.alg, StrC("http://www.w3.org/2001/04/xmldsig-more#rsa-sha256"))
+			digestOK := Or(And(sha1, Eq(hashID, IntC(3)), Eq(hashed, UF("sha1", s.octets))),
+				And(sha256, Eq(hashID, IntC(5)), Eq(hashed, UF("sha256", s.octets))))
+			valid = Or(valid, And(Eq(ci.keyID, s.keyID), digestOK, Eq(sig, s.sig)))
 		}
 		if x.Branch(valid) {
 			return NilIface
